@@ -27,18 +27,19 @@ type failure struct {
 }
 
 type battery struct {
-	s     *rstack
-	m     *model
-	sc    *scen
+	s      *rstack
+	m      *model
+	sc     *scen
 	fullLv []bool // per level: full battery (true) or light one
 	nfull  int
-	fails []failure
-	nq    int
-	out   map[string]int
-	cur   func() (api string, t int, q string, flags string) // the query being executed (for panics)
-	views map[[2]int]cachedView
-	buf   []kv
-	ic    *interop.Context
+	once   bool // initial state of a DAO-built stack: also the token transfer log scans
+	fails  []failure
+	nq     int
+	out    map[string]int
+	cur    func() (api string, t int, q string, flags string) // the query being executed (for panics)
+	views  map[[2]int]cachedView
+	buf    []kv
+	ic     *interop.Context
 }
 
 func flagsOf(q rangeQ, depth, t, stop int, cut bool) string {
@@ -431,7 +432,7 @@ func (b *battery) run() {
 			}
 			// SeekGC as a pure query (keep everything). On disk it opens a write
 			// transaction, so only the class-wide ranges are used there.
-			if (top && t > 0) || (t == 0 && (m.beKind == "mem" || (q.Prefix == sc.Base && (q.Start == "" || q.Bwd)))) {
+			if (top && t > 0) || (t == 0 && !isRO(m.beKind) && (m.beKind == "mem" || (q.Prefix == sc.Base && (q.Start == "" || q.Bwd)))) {
 				b.seekGC(st, t, q)
 			}
 		}
@@ -503,6 +504,9 @@ func (b *battery) run() {
 			b.interopBattery(t)
 			b.find(t)
 			b.daoSeekWriting(t)
+			if b.once {
+				b.transferLogs()
+			}
 		}
 	}
 }
